@@ -32,7 +32,7 @@ def requests(tier: str, slot: str) -> List[Tuple[str, int, int, bytes]]:
     out = []
     if tier == "three":
         # three slots, small alphabet: shared ids x allow_multiple x shared names (order-dependent identity checks)
-        return [("v2", 10, am, nm) for am in (0, 1) for nm in (b"", b"x")] + [("v2", 11, 1, b"x"), ("v2", 0, 0, b"x"), ("v1", 10, 0, b"")]
+        return [("v2", 10, am, nm) for am in (0, 1) for nm in (b"", b"x")] + [("v2", 11, 1, b"x"), ("v2", 0, 0, b"x"), ("v2", 0, 1, b"x"), ("v1", 10, 0, b"")]
     if slot == "Z" and tier == "quick":
         return [("v2", 10, 1, b"x"), ("v2", 0, 0, b""), ("v1", 10, 0, b"")]
     for i in ids:
